@@ -1,3 +1,21 @@
 // ---- std functions without a vstd spec that realistic edits of the code tend to reach for (assumed contracts) ----
 pub assume_specification<T, A: core::alloc::Allocator>[Vec::<T, A>::capacity](v: &Vec<T, A>) -> (r: usize)
     ensures r >= v@.len();
+/// Vec::reserve_exact panics ("capacity overflow") when the new capacity exceeds isize::MAX bytes
+/// (necessary condition stated for any element size; exact for 1-byte elements)
+pub assume_specification<T, A: core::alloc::Allocator>[Vec::<T, A>::reserve_exact](v: &mut Vec<T, A>, additional: usize)
+    requires old(v)@.len() + additional <= isize::MAX,
+    ensures final(v)@ == old(v)@;
+pub assume_specification<T, A: core::alloc::Allocator>[Vec::<T, A>::shrink_to_fit](v: &mut Vec<T, A>)
+    ensures final(v)@ == old(v)@;
+pub assume_specification<T: Ord>[core::cmp::max::<T>](a: T, b: T) -> (r: T)
+    ensures r == a || r == b;
+pub assume_specification<T: Ord>[core::cmp::min::<T>](a: T, b: T) -> (r: T)
+    ensures r == a || r == b;
+pub assume_specification<T>[core::mem::replace::<T>](dest: &mut T, src: T) -> (r: T)
+    ensures r == *old(dest), *final(dest) == src;
+pub assume_specification<T>[Option::<T>::replace](o: &mut Option<T>, value: T) -> (r: Option<T>)
+    ensures r == *old(o), *final(o) == Some(value);
+pub assume_specification[String::len](s: &String) -> (r: usize);
+pub assume_specification<T: Clone>[<[T]>::to_vec](s: &[T]) -> (r: Vec<T>)
+    ensures r@.len() == s@.len(), forall|i: int| 0 <= i < s@.len() ==> cloned(#[trigger] s@[i], r@[i]);
